@@ -219,7 +219,7 @@ def bounded(tier_name, rnd):
     texts = gen_regexes(depth)
     seed0 = rnd.randrange(1 << 30)
     rng = random.Random(seed0)
-    nrand = 1500 if tier_name == "quick" else 20000
+    nrand = 1500 if tier_name == "quick" else 5000
     texts += [random_regex(rng, rng.randrange(2, 9)) for _ in range(nrand)]
     chunks = [(texts[i::32], maxlen) for i in range(32)]
     with mp.get_context("fork").Pool(16) as pool:
